@@ -97,6 +97,10 @@ pub struct Net {
     /// The empty network answers like a NIC in a looped-back cable: unmodified echo, or (the only
     /// way ethercrab can see "0 devices") an echo with the U/L bit set.
     pub empty_sets_ul_bit: bool,
+    /// C17 hostile family: latch random port receive times instead of the physical ones.
+    pub scramble_port_times: Option<u64>,
+    /// Make every DC device's 32 bit port times straddle the 32 bit wrap at the latch.
+    pub straddle_wrap: Option<u64>,
 }
 
 impl Net {
@@ -125,6 +129,8 @@ impl Net {
             frames_seen: 0,
             dgrams_seen: 0,
             empty_sets_ul_bit: true,
+            scramble_port_times: None,
+            straddle_wrap: None,
         }
     }
 
@@ -186,7 +192,27 @@ impl Net {
             if !d.present || !d.desc.dc_supported {
                 continue;
             }
-            let (ports, epu) = times[i];
+            let (mut ports, epu) = times[i];
+            if let Some(seed) = self.straddle_wrap {
+                // choose the local clock so that port 0 sees a time just below 2^32 and the frame
+                // returns (other ports) after the 32 bit counter wrapped
+                let mut r = Rng::new(seed ^ (i as u64) << 8);
+                let last = ports.iter().copied().max().unwrap_or(0);
+                let span = last.saturating_sub(ports[0]);
+                let before = if span > 1 { 1 + r.below(span - 1) } else { 0 };
+                let target = 0x1_0000_0000u64.wrapping_sub(before) | (r.u64() & 0xffff_fffe_0000_0000);
+                d.clock_offset = target.wrapping_sub(ports[0]);
+            }
+            if let Some(seed) = self.scramble_port_times {
+                let mut r = Rng::new(seed ^ i as u64);
+                for p in ports.iter_mut() {
+                    *p = match r.below(4) {
+                        0 => 0,
+                        1 => u32::MAX as u64,
+                        _ => r.u64(),
+                    };
+                }
+            }
             for p in 0..4 {
                 let local = if ports[p] == 0 { 0 } else { ports[p].wrapping_add(d.clock_offset) };
                 d.latched_ports[p] = local;
